@@ -61,6 +61,13 @@ fn main() {
             }
             out.flush().unwrap();
         }
+        "bindings" => {
+            // which function-level event kinds this build can produce
+            for k in ["swap", "swapmono", "reverse", "share", "maxspread", "slip", "arith", "text"] {
+                writeln!(out, "{} {}", k, if math::bound(k) { "bound" } else { "unbound" }).unwrap();
+            }
+            out.flush().unwrap();
+        }
         _ => {
             eprintln!("usage: verif-harness math|world ... --seed S --n N --out FILE");
             std::process::exit(2);
